@@ -555,7 +555,7 @@ def inject_mismatch(sg: Sig, rules: list, tr: Trace):
         r = rules[st.rule]
         modes = ['rule']
         if kr.variables(r.lhs):
-            modes += ['subst', 'subst', 'subst']
+            modes += ['subst', 'subst', 'subst', 'unbound']
         if k == 0:
             modes += ['init']
         if k >= 1:
@@ -571,6 +571,13 @@ def inject_mismatch(sg: Sig, rules: list, tr: Trace):
             if new is None:
                 continue
             steps[k].sigma[v] = new
+        elif mode == 'unbound':
+            # the substitution leaves one variable of the left side unbound: the instantiated left side still contains a
+            # variable, so it is not the configuration reached before
+            v = rng.choice(kr.variables(r.lhs))
+            if v not in steps[k].sigma:
+                continue
+            del steps[k].sigma[v]
         elif mode == 'rule':
             others = [q for q in rules if q.idx != r.idx]
             if not others:
